@@ -295,7 +295,17 @@ def build_tree(ck, world, depth, maxdepth, counter):
         alg = rng.choice(ALGS)
         r = sl.lib_single(world.tmp, data, world.KB.for_alg(alg, 1), 0x99, alg, world.KB.dir, "error", name="pre")
         if r[0] == "ok":
-            data, n.presigned = r[1], True
+            try:
+                signed = any(sl.is_sign1(v) for v, _ in sl.Envelope(r[1]).wrapper_elements())
+            except Exception:  # noqa: BLE001
+                signed = False
+            if signed:
+                data, n.presigned = r[1], True
+            else:
+                # signing an unsigned envelope "succeeded" without adding a signature: a violation in itself
+                getattr(world, "presign_failures", None) is None and setattr(world, "presign_failures", [])
+                world.presign_failures.append({"input": {"op": "sign single-level (preparing an already-signed dependency)", "envelope": data.hex(), "alg": alg, "key_id": 0x99},
+                                               "observed": "the command succeeded but the output carries no signature block", "expected": "exactly one new valid signature"})
     n.data = data
     return n
 
@@ -720,6 +730,7 @@ def run(tier, seed):
         failing += keytype_stream(ck, world)
         failing += tree_stream(ck, world, tmp, 1500 if ck.thorough else 300 if ck.deep else 40, False)
         failing += tree_stream(ck, world, tmp, 600 if ck.thorough else 200 if ck.deep else 40, True)
+        failing += getattr(world, "presign_failures", [])[:3]
         ck.cov["rule"] = (
             "streams: corpus (regression witnesses F1: recursive signing of the test-suite's root envelope; F7: omit-signing without key-name / key-id, at the "
             "root and nested; library and CLI), matrix (COMPLETE: 3 actions x {unsigned, singly signed} x 5 algorithms x {matching, mismatching key type} = 60 "
